@@ -21,7 +21,7 @@ RULE = ("one case = one builder input x target version: texture/model/WMO name l
         "MTXP / blend mesh / MCBB from MoP; an all-zero MFBO or MTXF the conversion adds where the source has none is no difference; nothing is demanded of fields the target cannot carry); "
         "(p) other entry points must agree with the ones above: AdtBuilder::from_parsed(parsed).build() -> to_bytes (round 1 and, on every second case, the edited tile) either writes the bytes "
         "from_root_adt(parsed, None) writes or is itself walked, parsed, compared and held to the size limit; parse_adt_with_metadata yields the tile parse_adt yields, with metadata version == tile "
-        "version, file type root, chunk count and every (chunk id, offset, size) of its discovery record equal to the walker's frames; write_to_file -> AdtSet::load_from_path -> merge (one case in eight) on the lone "
+        "version, file type root, chunk count and every (chunk id, offset, size) of its discovery record equal to the walker's frames; write_to_file -> AdtSet::load_from_path -> merge (every second case) on the lone "
         "root file yields the tile parse_adt yields; the texture list enters the builder by add_texture, by one add_textures call, or by both (a third of the cases each); the edit stage reaches "
         "the parsed tile only through RootAdt::*_mut (mcnk_chunks_mut, and root-level edits through textures_mut / models_mut / wmos_mut / doodad_placements_mut / wmo_placements_mut / "
         "water_data_mut / flight_bounds_mut / texture_flags_mut / texture_amplifier_mut / texture_params_mut: rename or append a name, replace / append / remove a placement, new levels on or "
